@@ -19,7 +19,7 @@ import (
 func init() {
 	register(&PropDef{
 		ID: "C04",
-		Rule: "plan = key creations of all five kinds + every way to set/clear a deadline (EXPIRE/PEXPIRE/EXPIREAT/PEXPIREAT x none|NX|XX|GT|LT, PERSIST, SET EX|PX|EXAT|PXAT, GETEX forms) + observers (GET, MGET, TYPE, TTL family, STRLEN, LLEN, HGET, SCARD, ZCARD, SET NX/XX, APPEND, INCR, LPUSHX, RENAME, DEL, HSET, SADD) + clock advances biased to deadline boundaries + sampler on/off (policy, interval, sample size drawn per run); " +
+		Rule: "plan = key creations of all five kinds + every way to set/clear a deadline (EXPIRE/PEXPIRE/EXPIREAT/PEXPIREAT x none|NX|XX|GT|LT, PERSIST, SET EX|PX|EXAT|PXAT, GETEX forms) + observers (GET, MGET, TYPE, TTL family, STRLEN, LLEN, HGET, SCARD, ZCARD, SET NX/XX, APPEND, INCR, LPUSHX, RENAME, DEL, HSET, SADD) + clock advances biased to deadline boundaries + sampler on/off (policy, interval, sample size drawn per run); profile race (1 in 4): the sampler's tick, per-database goroutines and store-lock acquisitions are interleaved with the steps of the commands by the dice (its activity must stay invisible: same model); " +
 			"non-trivial = at least one deadline was crossed or queried; distinct = hash of the (operation kind, key kind, before/at/after-deadline class) sequence",
 		Gen:  genC04,
 		Run:  runC04,
@@ -44,6 +44,12 @@ func genC04(r *Rng, tier string, idx int) *Plan {
 		p.SKnobs["policy"] = Pick(r, []string{"allkeys-lru", "allkeys-lfu", "volatile-lru", "volatile-lfu", "allkeys-random", "volatile-random"})
 		p.Knobs["interval_ms"] = int64(Pick(r, []int{10, 100, 1000}))
 		p.Knobs["sample"] = int64(Pick(r, []int{1, 2, 5, 20}))
+		if idx%4 == 3 {
+			// the sampler's steps (tick, per-database goroutines, store-lock acquisitions) are interleaved with the
+			// steps of the next commands by the dice instead of running to completion between commands
+			p.Profile = "race"
+			p.Dice = drawDice(r, 128)
+		}
 	}
 	p.Knobs["tcp"] = int64(r.Intn(2))
 	keys := []string{"k1", "k2", "k3"}
@@ -91,6 +97,7 @@ type c04Run struct {
 	class []string
 	now   func() int64
 	cross int
+	dice  *Dice
 }
 
 func (a *c04Run) fail(sig, detail string) {
@@ -132,7 +139,7 @@ func runC04(t *testing.T, p *Plan) *Outcome {
 		defer s.uninstall()
 		cfg := BaseConfig
 		cfg.EvictionPolicy = p.SK("policy")
-		if p.Profile == "sampler" {
+		if p.Profile == "sampler" || p.Profile == "race" {
 			cfg.EvictionInterval = time.Duration(p.K("interval_ms")) * time.Millisecond
 			cfg.EvictionSample = uint(p.K("sample"))
 		}
@@ -148,11 +155,15 @@ func runC04(t *testing.T, p *Plan) *Outcome {
 			a.c = s.NewEmbeddedClient(inst, "c")
 		}
 		a.now = func() int64 { return time.Now().UnixMilli() }
+		a.dice = p.NewDice()
 		for i := 0; i < len(p.Ops) && o.Sig == ""; i++ {
 			a.step(p.Ops[i])
 			if o.Sig == "" {
 				a.checkDump(p.Ops[i])
 			}
+		}
+		if p.Profile == "race" && o.Sig == "" && !s.DrainAll(3000) {
+			a.fail("sampler-never-quiesces", "the expiry sampler's goroutines do not finish after the workload ended")
 		}
 		o.Stats = s.Stats
 		o.Log = s.Log
@@ -167,7 +178,50 @@ func runC04(t *testing.T, p *Plan) *Outcome {
 	return o
 }
 
+// doRace runs one command as a task and lets the dice interleave its steps with whatever the sampler has
+// pending (a tick woken by the last clock advance, its per-database goroutines).
+func (a *c04Run) doRace(args []string) Result {
+	s := a.s
+	var res *Result
+	a.c.Start(args, func(r Result) { res = &r })
+	for step := 0; step < 3000; step++ {
+		parked := s.ParkedTasks()
+		if len(parked) == 0 {
+			if res != nil {
+				break
+			}
+			s.Settle()
+			if len(s.ParkedTasks()) == 0 && step > 20 {
+				break
+			}
+			continue
+		}
+		if res != nil {
+			break // the command is answered; what is left of the sampler races with the next command
+		}
+		tk, stuck := PickFair(parked, a.dice.Next(len(parked)), 300)
+		s.noteChoice(len(parked), tk.Site)
+		if stuck {
+			a.fail("livelock/"+tk.Site, fmt.Sprintf("%q racing the sampler: task t%d spun %d times at %s", args, tk.ID, tk.Spins, tk.Site))
+			return Result{}
+		}
+		s.Release(tk)
+	}
+	if res == nil {
+		a.fail("never-answered/"+strings.ToUpper(args[0]), fmt.Sprintf("%q racing the expiry sampler was never answered", args))
+		return Result{}
+	}
+	return *res
+}
+
 func (a *c04Run) do(args ...string) Result {
+	if a.p.Profile == "race" {
+		r := a.doRace(args)
+		if r.Panic != "" {
+			a.fail("panic/"+strings.ToUpper(args[0])+"/"+topRepoFrame(r.Panic), fmt.Sprintf("%q: %s", args, r.Panic))
+		}
+		return r
+	}
 	r := a.c.DoSync(args...)
 	if r.Panic != "" {
 		a.fail("panic/"+strings.ToUpper(args[0])+"/"+topRepoFrame(r.Panic), fmt.Sprintf("%q: %s", args, r.Panic))
@@ -235,6 +289,12 @@ func (a *c04Run) step(op Op) {
 			}
 		}
 		a.class = append(a.class, "adv:"+op.S)
+		if a.p.Profile == "race" {
+			// the tick this wakes is left parked: it runs interleaved with the next commands
+			a.s.Advance(time.Duration(d) * time.Millisecond)
+			a.s.Settle()
+			break
+		}
 		a.s.AdvanceSync(time.Duration(d) * time.Millisecond)
 		if a.p.Profile == "sampler" {
 			// let the sampler tick a few times
